@@ -1,0 +1,56 @@
+//go:build verif
+
+package filter
+
+// Contracts for the deductive verifier in /verif (govc); comments only, build tag "verif".
+
+//@ func All(comps) (r)
+//@   props C04
+//@   ensures forall i uint8 :: specBit(r, i) == (validID(i) && exists k int :: 0 <= k && k < len(comps) && comps[k].id == i)
+
+//@ func Any(comps) (r)
+//@   props C04
+//@   ensures forall i uint8 :: specBit(Mask(r), i) == (validID(i) && exists k int :: 0 <= k && k < len(comps) && comps[k].id == i)
+
+//@ func NoneOf(comps) (r)
+//@   props C04
+//@   ensures forall i uint8 :: specBit(Mask(r), i) == (validID(i) && exists k int :: 0 <= k && k < len(comps) && comps[k].id == i)
+
+//@ func AnyNot(comps) (r)
+//@   props C04
+//@   ensures forall i uint8 :: specBit(Mask(r), i) == (validID(i) && exists k int :: 0 <= k && k < len(comps) && comps[k].id == i)
+
+//@ func ANY.Matches(f, bits) (r)
+//@   props C04
+//@   requires bits != nil
+//@   ensures r == meets(Mask(f), *bits)
+
+//@ func NoneOF.Matches(f, bits) (r)
+//@   props C04
+//@   requires bits != nil
+//@   ensures r == !meets(Mask(f), *bits)
+
+//@ func AnyNOT.Matches(f, bits) (r)
+//@   props C04
+//@   requires bits != nil
+//@   ensures r == !subset(Mask(f), *bits)
+
+//@ func AND.Matches(f, bits) (r)
+//@   props C04
+//@   requires bits != nil && f.L != nil && f.R != nil
+//@   ensures r == (matches(f.L, *bits) && matches(f.R, *bits))
+
+//@ func OR.Matches(f, bits) (r)
+//@   props C04
+//@   requires bits != nil && f.L != nil && f.R != nil
+//@   ensures r == (matches(f.L, *bits) || matches(f.R, *bits))
+
+//@ func XOR.Matches(f, bits) (r)
+//@   props C04
+//@   requires bits != nil && f.L != nil && f.R != nil
+//@   ensures r == (matches(f.L, *bits) != matches(f.R, *bits))
+
+//@ func NOT.Matches(f, bits) (r)
+//@   props C04
+//@   requires bits != nil && f.F != nil
+//@   ensures r == !matches(f.F, *bits)
